@@ -5,6 +5,7 @@ CONSTANTS DoEmit
 \* gate hits, capped to Segs - 1 scheduled gates (further hits run free)
 cProgs2 == << <<"encShared", "qryShared">>, <<"qryShared", "decPriv">> >>
 cProgs2b == << <<"encShared">>, <<"encShared">> >>
+cProgs2c == << <<"leafShared">>, <<"leafShared", "encShared">> >>      \* (leaf nodes, Copy and the pretty-printers of shared Maps)
 cProgs3 == << <<"encShared">>, <<"qryShared">>, <<"encPriv">> >>
 cSegs == [encShared |-> 3, qryShared |-> 3, decPriv |-> 3, encPriv |-> 3, leafShared |-> 3]
 cSegs2 == [encShared |-> 2, qryShared |-> 2, decPriv |-> 2, encPriv |-> 2, leafShared |-> 2]
